@@ -54,6 +54,11 @@ func ruleIfaceIndexSameMessage(ctx *Ctx, rule string) {
 			if strings.Count(a, "Capability(") == 2 && (strings.Contains(a, " == ") || strings.Contains(a, " != ")) {
 				idx = true
 			}
+			// an index compared with the length of a capability table: the table
+			// is one message's, so the index must belong to that message too
+			if strings.Contains(a, "Capability(") && strings.Contains(a, "CapTable") {
+				idx = true
+			}
 			if strings.Count(a, "Message(") == 2 && strings.Contains(a, " == ") {
 				same = true
 			}
